@@ -3,6 +3,7 @@ package props
 import (
 	"bytes"
 	"encoding/binary"
+	"encoding/hex"
 	"encoding/json"
 	"fmt"
 	"strings"
@@ -262,7 +263,7 @@ func c14(x *mon.Ctx) {
 			add("svn/minimum_pce_svn", fmt.Sprintf("%d#%d", v, rep), ref.Policy{MinPceSvn: v}, quotes, nil)
 		}
 		for n := 0; n <= 5; n++ {
-			for _, comp := range []string{"full-equal", "all-empty", "one-short", "one-long", "one-plus-256", "one-differs", "mixed"} {
+			for _, comp := range []string{"full-equal", "all-empty", "one-short", "one-long", "one-plus-256", "one-differs", "mixed", "one-doubled", "one-two-registers-run-together", "one-tripled", "one-as-hex-digits"} {
 				var l [][]byte
 				for i := 0; i < n; i++ {
 					v := append([]byte{}, q.Rtmrs[i%4]...)
@@ -281,6 +282,22 @@ func c14(x *mon.Ctx) {
 						if i == n-1 {
 							v = append(v, make([]byte, 256)...)
 						}
+					case "one-doubled": // lengths that are a multiple of the right one
+						if i == n-1 {
+							v = append(v, v...)
+						}
+					case "one-two-registers-run-together":
+						if i == 0 {
+							v = append(v, q.Rtmrs[(i+1)%4]...)
+						}
+					case "one-tripled":
+						if i == n/2 {
+							v = append(append(v, v...), v[:48]...)
+						}
+					case "one-as-hex-digits": // 96 characters: the value as it is printed
+						if i == n-1 {
+							v = []byte(hex.EncodeToString(v))
+						}
 					case "one-differs":
 						if i == n-1 {
 							v[0] ^= 1
@@ -296,7 +313,7 @@ func c14(x *mon.Ctx) {
 			}
 		}
 		for n := 0; n <= 4; n++ {
-			for _, comp := range []string{"none", "first", "last", "short-entry", "long-entry", "empty-entry", "entry-plus-256", "repeated-other", "repeated-match", "other-match-other-again"} {
+			for _, comp := range []string{"none", "first", "last", "short-entry", "long-entry", "empty-entry", "entry-plus-256", "repeated-other", "repeated-match", "other-match-other-again", "doubled-entry", "matching-entry-as-hex-digits", "two-entries-run-together", "entry-of-16-values"} {
 				var l [][]byte
 				for i := 0; i < n; i++ {
 					v := make([]byte, 48)
@@ -325,6 +342,22 @@ func c14(x *mon.Ctx) {
 					case "entry-plus-256":
 						if i == n-1 {
 							v = append(append([]byte{}, q.MrTd...), make([]byte, 256)...)
+						}
+					case "doubled-entry":
+						if i == n-1 {
+							v = append(append([]byte{}, q.MrTd...), q.MrTd...)
+						}
+					case "matching-entry-as-hex-digits":
+						if i == 0 {
+							v = []byte(hex.EncodeToString(q.MrTd))
+						}
+					case "two-entries-run-together":
+						if i == n-1 {
+							v = append(v, q.MrTd...)
+						}
+					case "entry-of-16-values":
+						if i == n/2 {
+							v = bytes.Repeat(q.MrTd, 16)
 						}
 					case "repeated-other": // the same (non-matching) value in every position
 						if i > 0 {
